@@ -5,9 +5,10 @@ CONSTANTS
   Carol = {"c1", "c2", "c4"}
   SmallBw = {"c2"}
   PolNames = {"PA", "PB", "PD", "PE"}
+  Heights = {100}
   HtlcNames = {"H1", "H2", "H3", "H4", "H7", "H9", "H10"}
   MaxSteps = 3
   Variant = "ok"
   Guard = "-"
-INVARIANTS TypeOK PolicyPropagated HandedOnlyIfAdvertisedAccepts FailedOnlyIfNoLinkAccepts FailureNamesViolatedRule UnknownNextPeerOnlyIf DecisionAsAdvertised
+INVARIANTS TypeOK PolicyPropagated HandedOnlyIfAdvertisedAccepts FailedOnlyIfNoLinkAccepts FailureNamesViolatedRule UnknownNextPeerOnlyIf DecidedAtCurrentHeight DecisionAsAdvertised
 CHECK_DEADLOCK FALSE
